@@ -134,7 +134,11 @@ TStep ==
           /\ (Prop = "C08" =>
                 /\ ChkT(tr, 1, "re-read raised: " \o tr.rexc, tr.rres = "ok")
                 /\ ChkS(tr, 1, "read(write(f)) differs from f", ContentDiagH(c, tr.names, tr.got, c.nt, c.fmt # "landuse", TRUE))
-                /\ ChkT(tr, 1, "write(read(write(f))) is not byte-identical to write(f)", tr.same_bytes))
+                /\ ChkT(tr, 1, "write(read(write(f))) is not byte-identical to write(f)", tr.same_bytes)
+                \* the same content through a netCDF copy (the writer's documented
+                \* route), one cell per species holding netCDF's default fill value
+                /\ ChkT(tr, 1, "uamiv written from the netCDF copy of a file: " \o tr.ncroute,
+                        tr.ncroute \in {"same", "skipped"}))
        [] tr.kind = "cuts" ->
           \A p \in 1..Len(tr.obs) : LET o == tr.obs[p] IN
             /\ ChkT(tr, p, "reader did not terminate on the prefix of " \o ToString(o.n) \o " bytes", o.k # "Hang")
